@@ -151,3 +151,46 @@ Example C16_disable_outcomes :
   /\ pending (final ex_cfg [EUser 1 (UCommand false ex_cmd); EUser 2 (URestart true); EUser 3 ULinkStatus; EDisable;
                             EUser 4 (URead [60; 1; 6]); EShutdown]) = [].
 Proof. split; vm_compute; reflexivity. Qed.
+
+(* ---- agreement of the hand-written models with the tables regenerated from the source on every run
+   (tools/gen/gen_master_tables.py -> gen/MasterTables.v; lemmas, interpreters and observers in
+   Master/TablesAgree.v, module MTab).  `.._is_table`: the model's function IS the interpreter run over the
+   generated table; `.._observed`: the order the model serves things in, observed on enumerated states. *)
+From Coq Require Import String List.
+From Dnp3V Require Import Base.Bytes Master.Backoff Master.Assoc Master.Sched Master.MParse Master.Command Master.MTask
+  Master.TimeSync gen.MasterTables Master.TablesAgree.
+Import MTab.
+Local Open Scope string_scope.
+Local Open Scope list_scope.
+Local Open Scope N_scope.
+
+(* every non-READ task of the task model sends the generated function code; the function code of an
+   EmptyResponseTask is the parameter of the request *)
+Theorem C16_tables_function_codes : forall k,
+  match k with
+  | MT.NREmpty _ fc => str_in (nr_name k) gm_task_function_param = true /\ MT.nr_fc k = fc
+  | _ => assoc_str (nr_name k) gm_task_function = Some (MT.nr_fc k)
+  end.
+Proof. exact MTab.mt_function_codes_agree. Qed.
+Print Assumptions C16_tables_function_codes.
+
+Theorem C16_tables_queue_admission : forall now tok k a cfg st t,
+  (match ms_err_of (snd gm_queue_admit) with
+   | Some e => Some (if cmp_nat (fst gm_queue_admit) (length (ms_a_queue a)) (ms_c_maxq (ms_a_cfg a))
+                     then (ms_set_queue a (ms_a_queue a ++ [(tok, k)]), [])
+                     else ms_task_error now (ms_user_task tok k) e false a)
+   | None => None
+   end) = Some (ms_queue_task now true tok k a) /\
+  (MT.s_assoc st = true -> MT.s_conn st = true ->
+   MT.on_user cfg st tok t
+   = if cmp_nat (fst gm_queue_admit) (length (MT.s_queue st)) (MT.c_maxq cfg)
+     then (MT.set_queue st (MT.s_queue st ++ [(tok, t)]), [])
+     else (st, MT.emit st (MT.ORes tok (MT.RErr MT.ETooMany)))) /\
+  snd gm_queue_admit = "TooManyRequests".
+Proof. exact MTab.queue_admission_agrees. Qed.
+Print Assumptions C16_tables_queue_admission.
+
+Example C16_tables_instance :
+  assoc_str "Command::Select" gm_task_function = Some 3 /\ assoc_str "Command::Operate" gm_task_function = Some 4 /\
+  assoc_str "Command::DirectOperate" gm_task_function = Some 5 /\ gm_queue_admit = (GmLt, "TooManyRequests").
+Proof. repeat split. Qed.
